@@ -368,3 +368,132 @@ async fn drive_valuations(w: &mut World, m: &mut Mon, r: &mut R, lev: &Lev, lq: 
     let ixs = receivership_ixs(w, a, &rk, Some((ca, 1, false)), Some((db, 2, false)), !has_record, &tas);
     let _ = w.probe(m, &ixs, &[&rk]).await;
 }
+
+/// Forced deleverage by the risk admin: bracket like a liquidation, with the group's daily
+/// withdrawal limit configured so that withdrawals straddle it (and the 24 h reset).
+pub async fn deleverage(w: &mut World, m: &mut Mon, r: &mut R, lev: &Lev, g: usize) {
+    let gk = w.groups[g].key;
+    let admin = clone_kp(&w.groups[g].admin);
+    let risk = clone_kp(&w.groups[g].risk);
+    let limit = pick(r, &[0u32, 1, 5, 50, 1000, u32::MAX]);
+    let i = ix::configure_delev_limit(gk, admin.pubkey(), limit);
+    let _ = w.exec(m, &[i], &[&admin]).await;
+    // token accounts of the risk admin for both mints
+    let (mc, md) = (w.banks[lev.ca].mint, w.banks[lev.db].mint);
+    let ta_c = w.new_token_account(mc, risk.pubkey(), 0).await;
+    let ta_d = w.new_token_account(md, risk.pubkey(), 1 << 40).await;
+    let acct = w.accts[lev.acct].key;
+    if !w.shadow.contains_key(&ix::liq_record_key(&acct)) {
+        let i = ix::init_liq_record(acct, risk.pubkey());
+        let _ = w.exec(m, &[i], &[&risk]).await;
+    }
+    let rounds = r.gen_range(1..5);
+    for k in 0..rounds {
+        if k > 0 && r.gen_bool(0.3) {
+            w.chain.advance(pick(r, &[3600i64, 86_399, 86_400, 86_401]));
+            w.refresh_oracles();
+        }
+        let signer = if r.gen_bool(0.9) { clone_kp(&risk) } else { w.user_kp(0) };
+        let risk_metas = w.risk_metas(lev.acct, None, None);
+        let mut ixs = vec![ix::start_deleverage(gk, acct, signer.pubkey(), risk_metas.clone())];
+        let wd = pick(r, &[1u64, 1000, 1_000_000, 50_000_000, 1 << 30]);
+        let mut rem = w.mint_prefix(lev.ca);
+        rem.extend(risk_metas.clone());
+        ixs.push(ix::withdraw(gk, acct, signer.pubkey(), w.banks[lev.ca].key, ta_c, w.token_program_of_bank(lev.ca), wd, None, rem));
+        let rp = pick(r, &[lev.borrowed / 20 + 1, lev.borrowed / 5 + 1, lev.borrowed / 2 + 1]);
+        ixs.push(ix::repay(gk, acct, signer.pubkey(), w.banks[lev.db].key, ta_d, w.token_program_of_bank(lev.db), rp, None, w.mint_prefix(lev.db)));
+        ixs.push(ix::end_deleverage(gk, acct, signer.pubkey(), risk_metas));
+        let o = w.exec(m, &ixs, &[&signer]).await;
+        m.r.count(if o.ok() { "scen.deleverage_committed" } else { "scen.deleverage_rejected" });
+    }
+}
+
+/// Real wipe-out: a bank whose single borrower goes bankrupt with more debt than the bank has
+/// deposits. Afterwards every financial instruction and every admin path is tried on the bank.
+pub async fn wipeout(w: &mut World, m: &mut Mon, r: &mut R, g: usize, lender: usize) -> Option<usize> {
+    // fresh debt bank with an aggressive curve so that debt outgrows deposits
+    let mint = w.add_mint(6, TokKind::Classic).await;
+    for u in 0..w.users.len() {
+        let ta = w.users[u].tas[mint];
+        w.mint_to(mint, ta, 1 << 40).await;
+    }
+    let mut c = default_bank_cfg();
+    c.interest_rate_config.zero_util_rate = u32::MAX / 2;
+    c.interest_rate_config.hundred_util_rate = u32::MAX;
+    c.interest_rate_config.points = make_points(&[]);
+    c.interest_rate_config.protocol_fixed_fee_apr = wi(0.5);
+    let now = w.chain.now();
+    let db = w.add_bank_pyth(g, mint, c, PythPx::simple(1_000_000, -6, now)).await.ok()?;
+    w.create_ata(w.fee_wallet.pubkey(), mint).await;
+    let lk = w.auth_of(lender);
+    let dep = 1_000_000_000u64;
+    let i = w.ix_deposit(lender, db, lk.pubkey(), w.ta_of(lender, db), dep, None);
+    if !w.exec(m, &[i], &[&lk]).await.ok() {
+        return None;
+    }
+    let cands: Vec<usize> = (0..w.banks.len()).filter(|b| *b != db && usable_collateral(w, *b) && matches!(w.banks[*b].oracle, OracleD::Pyth(_) | OracleD::Swb(_))).collect();
+    if cands.is_empty() {
+        return None;
+    }
+    let ca = pick(r, &cands);
+    // borrower with plenty of collateral borrows everything
+    let u = w.add_user(1u64 << 44).await;
+    let a = w.add_account(g, u).await;
+    let auth = w.auth_of(a);
+    let i = w.ix_deposit(a, ca, auth.pubkey(), w.ta_of(a, ca), 1u64 << 43, None);
+    if !w.exec(m, &[i], &[&auth]).await.ok() {
+        return None;
+    }
+    let ta = w.ta_of(a, db);
+    let ak = auth.pubkey();
+    let max = bisect_max(w, m, &[&auth], dep, |w, x| vec![w.ix_borrow(a, db, ak, ta, x)]).await?;
+    let i = w.ix_borrow(a, db, ak, ta, max);
+    if !w.exec(m, &[i], &[&auth]).await.ok() {
+        return None;
+    }
+    if max < dep / 2 {
+        m.r.count("scen.wipeout_not_reachable_low_borrow");
+    }
+    // time passes: debt grows faster than deposits (fees), then the collateral dies
+    w.chain.advance(pick(r, &[365i64 * 86_400, 3 * 365 * 86_400]));
+    w.refresh_oracles();
+    scale_price_any(w, ca, 1e-12).await;
+    let admin = clone_kp(&w.groups[g].admin);
+    let i = w.ix_bankruptcy(a, db, admin.pubkey());
+    let o = w.exec(m, &[i], &[&admin]).await;
+    scale_price_any(w, ca, 1e12).await;
+    if !o.ok() {
+        m.r.count("scen.wipeout_bankruptcy_rejected");
+        return None;
+    }
+    let killed = w.bank(db).config.operational_state == BankOperationalState::KilledByBankruptcy;
+    m.r.count(if killed { "scen.bank_killed" } else { "scen.bankruptcy_without_kill" });
+    if !killed {
+        return None;
+    }
+    // every financial instruction on the killed bank
+    let gk = w.groups[g].key;
+    let lt = w.ta_of(lender, db);
+    let lkp = lk.pubkey();
+    let i = w.ix_deposit(lender, db, lkp, lt, 5, None);
+    let _ = w.exec(m, &[i], &[&lk]).await;
+    let i = w.ix_withdraw(lender, db, lkp, lt, 5, None);
+    let _ = w.exec(m, &[i], &[&lk]).await;
+    let i = w.ix_withdraw(lender, db, lkp, lt, 0, Some(true));
+    let _ = w.exec(m, &[i], &[&lk]).await;
+    let i = w.ix_borrow(lender, db, lkp, lt, 5);
+    let _ = w.exec(m, &[i], &[&lk]).await;
+    let i = w.ix_repay(lender, db, lkp, lt, 5, None);
+    let _ = w.exec(m, &[i], &[&lk]).await;
+    // admin paths that could change the state
+    for st in [BankOperationalState::Operational, BankOperationalState::Paused, BankOperationalState::ReduceOnly] {
+        let mut opt = BankConfigOpt::default();
+        opt.operational_state = Some(st);
+        let i = ix::configure_bank(gk, admin.pubkey(), w.banks[db].key, opt);
+        let o = w.exec(m, &[i], &[&admin]).await;
+        m.r.count(if o.ok() { "scen.killed_bank_reconfigure_accepted" } else { "scen.killed_bank_reconfigure_rejected" });
+        let i = w.ix_deposit(lender, db, lkp, lt, 5, None);
+        let _ = w.exec(m, &[i], &[&lk]).await;
+    }
+    Some(db)
+}
